@@ -160,6 +160,34 @@ def _affine_algebra(model, rep, refdoms):
     R1 = "C10-R1"
     cls = model.cls(AFF, "MappingAffine")
     path = cls.path
+    # the optional constructor subset is kept as given: column k of every
+    # lazily built matrix belongs to cell tind[k] (order and repetitions
+    # included - the basis indexes the same array)
+    ini = cls.methods["__init__"]
+    t_in = Tind()
+    mesh0 = Obj(None, {"p": type("P", (), {"skv_getattr": lambda self, n: (
+        2, Poly.sym("nv")) if n == "shape" else (_ for _ in ()).throw(
+            Unsupported("p." + n))})()})
+    for given in (t_in, None):
+        o = Obj(cls, {})
+        try:
+            it0 = Interp(model, call_hook=lambda i_, nm, a, k, nd: (
+                ("derived", nm, tuple(a)) if nm.startswith("numpy.")
+                and any(x is t_in for x in a) else NotImplemented))
+            it0.lenient_attrs = True
+            it0.call(ini, [mesh0], {"tind": given}, self_obj=o)
+        except (Unsupported, Raised) as e:
+            raise AnalysisError(f"MappingAffine.__init__: {e}")
+        got = o.attrs.get("tind", "missing")
+        cons = f"MappingAffine.__init__:tind[{'subset' if given is not None else 'None'}]"
+        if got is given:
+            rep.ok(R1, cons, "the subset is stored as given")
+        else:
+            rep.fail(R1, path, "MappingAffine.__init__", cons,
+                     f"the cell subset is stored as {got!r}, not as given: "
+                     f"column k of A, b, invA, detA no longer belongs to "
+                     f"cell tind[k] for subsets that are not strictly "
+                     f"increasing (sorted / deduplicated)", ini.lineno)
     for dim in (1, 2, 3):
         rd = refdoms[SIMPLEX[dim]]
         # --- _init_invA on a generic matrix A
@@ -581,9 +609,11 @@ def _normals_method(model, rep, refdoms, modname, clsname):
     role_map = {}
     for name, vals in assigned.items():
         for v in vals:
-            if isinstance(v, ast.Call) and src(v.func) == "self.invDF":
+            if isinstance(v, ast.Call) and src(v.func) in (
+                    "self.invDF", "self.DF"):
                 ok = [src(a) for a in v.args] == ["X", "tind"]
-                role_map[name] = "invDF" if ok else "invDF(wrong args)"
+                r_ = src(v.func)[5:]
+                role_map[name] = r_ if ok else r_ + "(wrong args)"
 
     def role(e):
         s = src(e)
@@ -1094,6 +1124,16 @@ def run(model: Model, rep, tier: str) -> None:
 _A, _I, _R = ("skfem/mapping/mapping_affine.py",
               "skfem/mapping/mapping_isoparametric.py", "skfem/refdom.py")
 MUTANTS = [
+    ("restricted affine mapping sorts and deduplicates its subset",
+     (_A, "        self.tind = tind\n",
+      "        self.tind = None if tind is None else np.unique(tind)\n"),
+     "C10-R1"),
+    ("isoparametric normals pushed forward with DF like tangents",
+     [(_I, "        invDF = self.invDF(X, tind)\n        N = np.empty(("
+       "self.dim, len(find)))", "        DF = self.DF(X, tind)\n        N = "
+       "np.empty((self.dim, len(find)))"),
+      (_I, "        n = np.einsum('ijkl,ik->jkl', invDF, N)",
+       "        n = np.einsum('ijkl,jk->ikl', DF, N)")], "C10-R2"),
     ("Newton inverse returns when any cell has converged",
      (_I, "            if (np.linalg.norm(dX, 1, (0, 2)) < newton_tol).all():",
       "            if (np.linalg.norm(dX, 1, (0, 2)) < newton_tol).any():"),
